@@ -490,6 +490,71 @@ theorem initLedger_chain (p : Params) (g : Block) (s : State) (hg : g.header.hei
     cases hm'
 
 
+/-! ### a crash during the very first start -/
+
+/-- the durable state left when the very first start stops at crash point `k` of the genesis block's `submitBlock` -/
+def firstCrashD (p : Params) (g : Block) (k : Nat) : Durable :=
+  persisted gen0.dur (fillAll p gen0 g (executeBlock p gen0 g).1) k
+
+theorem initGenesis_fileLen (p : Params) (d : Durable) (g : Block)
+    (h : max d.fileLen (appendCount 0) = max 0 (appendCount 0)) :
+    initGenesis p d g = initGenesis p Durable.empty g := by
+  unfold initGenesis
+  simp only
+  unfold submitBlock
+  have hg : submitGuards p { dur := { blocks := BlockDB.empty, states := StateDB.empty, events := EventDB.empty, fileLen := d.fileLen }, mem := emptyMem } g
+      = submitGuards p { dur := { blocks := BlockDB.empty, states := StateDB.empty, events := EventDB.empty, fileLen := Durable.empty.fileLen }, mem := emptyMem } g := rfl
+  rw [hg]
+  cases submitGuards p { dur := { blocks := BlockDB.empty, states := StateDB.empty, events := EventDB.empty, fileLen := Durable.empty.fileLen }, mem := emptyMem } g with
+  | error e => rfl
+  | ok _ =>
+    simp only [persisted, fillAll, fillMem, fillBlockMem_filePos, fillBlockMem_blockTree, emptyMem, List.length_nil,
+      Durable.empty] at h ⊢
+    simp only [Nat.zero_add] at h ⊢
+    rw [h]
+    rfl
+
+theorem firstCrashD_fileLen (p : Params) (g : Block) (k : Nat) :
+    (firstCrashD p g k).fileLen = max 0 (0 + appendCount 0) := by
+  simp [firstCrashD, persisted, fillAll_fileLen, gen0, Durable.empty, emptyMem]
+
+theorem firstCrashD_version (p : Params) (g : Block) (k : Nat) : (firstCrashD p g k).blocks.version = false := by
+  unfold firstCrashD persisted
+  simp only
+  split
+  · exact (commit_blockBatch p gen0.mem g gen0.dur.blocks).1
+  · rfl
+
+theorem openState_firstCrash (p : Params) (g : Block) (k : Nat) (hg : g.header.height = 0) :
+    ∃ r, openState (firstCrashD p g k) = .ok r := by
+  by_cases hk : k ≥ 3
+  · obtain ⟨c1, c2, c3⟩ := commit_stateBatch_sys p gen0.mem.stateTree gen0.mem.blockTree g (executeBlock p gen0 g).1 gen0.dur.states
+    have e1 : (firstCrashD p g k).states = gen0.dur.states.commit (stateBatch p gen0.mem.stateTree gen0.mem.blockTree g (executeBlock p gen0 g).1) := by
+      simp [firstCrashD, persisted, hk, fillAll]
+    unfold openState
+    rw [e1, c1, c2, c3, firstCrashD_fileLen]
+    simp only [Option.getD_some, newBlockTree, newStateTree, hg, gen0, emptyMem, if_true, List.nil_append,
+      List.length_cons, List.length_nil, storedNum_succ, storedNum]
+    simp
+  · have e1 : (firstCrashD p g k).states = StateDB.empty := by
+      simp [firstCrashD, persisted, hk, gen0, Durable.empty]
+    unfold openState
+    rw [e1, firstCrashD_fileLen]
+    simp [StateDB.empty, storedNum]
+
+/-- **a crash during the very first start is harmless**: whatever point of the genesis block's persistence was
+reached, the second start produces exactly the ledger of an undisturbed first start -/
+theorem reopen_firstCrash (p : Params) (g : Block) (k : Nat) (hg : g.header.height = 0) :
+    reopen p g (firstCrashD p g k) = initLedger p g := by
+  obtain ⟨r, hr⟩ := openState_firstCrash p g k hg
+  unfold initLedger
+  unfold reopen
+  rw [hr, openState_empty]
+  simp only [firstCrashD_version, Durable.empty, BlockDB.empty, Bool.not_false, if_true]
+  rw [initGenesis_fileLen p (firstCrashD p g k) g (by rw [firstCrashD_fileLen]; omega)]
+  rfl
+
+
 /-- ledgers reachable by histories in which every crash interrupts a submission that passes the checks of
 `AddBlock`, and in which no two different blocks / headers carry the same hash -/
 inductive ReachV (p : Params) (g : Block) : State → Prop
